@@ -215,4 +215,9 @@ def run(repo, tier):
     if run_clones(repo, res) < 25:
         raise AnalysisError('vanished anchor: cloned shape/moment methods of SourceCatalog and ApertureStats')
     run_loop_twin(repo, res, {'photutils.segmentation.catalog', 'photutils.aperture.stats'})
+    from .common import run_slice_kind
+    run_slice_kind(repo, res, {'photutils.segmentation.catalog'})
+    res.floor('SLICE-KIND', 4)
+    from .C05 import labels_fast_path
+    labels_fast_path(repo, res, repo.get_class('photutils.segmentation.core.SegmentationImage'))
     return res
